@@ -29,6 +29,7 @@ Require Import Cirbo.Model.FuncProtoCases.
 Require Import Cirbo.Generated.TruthTableCore.
 Require Import Cirbo.Proofs.TruthTableGenPrim Cirbo.Proofs.TruthTableGenTT Cirbo.Proofs.TruthTableGenModel
         Cirbo.Proofs.TruthTableGenPy Cirbo.Proofs.TruthTableGenAll.
+Require Import Cirbo.Generated.PyFactoriesGen Cirbo.Proofs.PyFactoriesGen.
 
 (* ---- enumeration orders ---- *)
 
@@ -379,3 +380,58 @@ Example C12_circuit_protocol_corner :
   gen_is_constant outputs_fuel outputs_fuel self_loop_circuit = Err PyKeyError /\
   g_is_constant (circ_rep self_loop_circuit) = Err OutOfFuel.
 Proof. exact circuit_protocol_corner. Qed.
+
+(* ---- the same tie for what builds closures: the static factories and PyFunctionModel.define ----
+
+   Generated/PyFactoriesGen.v is produced from cirbo/core/python_function.py by translator/t26_py_factories.py on every
+   check, statement by statement, with the machinery of T11: a factory that builds a closure and passes it to a
+   constructor is a Gallina function that takes the user's callable and returns the record of the constructed object
+   whose `func` field is the translated closure; the constructors and input_to_canonical_index /
+   canonical_index_to_input are the gen_* of C12_truth_table_regenerated.  functools.wraps is the identity on
+   behaviour; `assert` raises AssertionError (no python -O).
+
+   A record with a function inside cannot be compared with `=` without functional extensionality: res_rel R a b says
+   that a and b raise the same exception or both return R-related values, and py_same g p / pm_same g p that g and p
+   have the same sizes and `func` fields that agree on EVERY argument list (Proofs/PyFactoriesGen.v).
+
+   Side conditions, all explicit in the statement:
+   - sizes and definition indices are naturals (Z.of_nat _; zitem turns the index of a definition item into a Z);
+   - the user's integer function is a total function on the naturals (zfun1 f / zfun2 f: it does not raise and
+     returns no negative number - for a negative number the source raises ValueError from int('b'), outside the model);
+   - from_positional has no hand-model counterpart and is specified directly: the callable is its behaviour on the
+     list of positional arguments plus the list of parameter kinds that inspect.signature reports (an EXPLICIT
+     modelling parameter); the result is PyFunction(func, number of parameters, output_size) when every parameter is
+     POSITIONAL_ONLY or POSITIONAL_OR_KEYWORD and BadCallableError otherwise (printed PyTypeError: Base.err has no
+     constructor for it); pm_make is the PyFunctionModel constructor in the hand model's terms;
+   - define: tp.cast(Sequence[bool], answer) is the identity in Python; a DontCare left in the answer (possible only
+     beyond output_size) is GateStateError on both sides (the hand model's tri_bool). *)
+Theorem C12_factories_regenerated :
+  (forall (f : nat -> nat) (in_len out_len : nat) (big_endian : bool),
+      res_rel py_same
+        (gen_PyFunction_from_int_unary_func (zfun1 f) (Z.of_nat in_len) (Z.of_nat out_len) big_endian)
+        (from_int_unary_func f in_len out_len big_endian)) /\
+  (forall (f : nat -> nat -> nat) (in_len out_len : nat) (big_endian : bool),
+      res_rel py_same
+        (gen_PyFunction_from_int_binary_func (zfun2 f) (Z.of_nat in_len) (Z.of_nat out_len) big_endian)
+        (from_int_binary_func f in_len out_len big_endian)) /\
+  (forall (func : bvec -> res bvec) (sig : list param_kind) (out : option nat),
+      res_rel py_same
+        (gen_PyFunction_from_positional func sig (option_map Z.of_nat out))
+        (if all_positional sig then py_make func (length sig) out else Err PyTypeError)) /\
+  (forall (func : bvec -> res (list tri)) (sig : list param_kind) (out : option nat),
+      res_rel pm_same
+        (gen_PyFunctionModel_from_positional func sig (option_map Z.of_nat out))
+        (if all_positional sig then pm_make func (length sig) out else Err PyTypeError)) /\
+  (forall (p : pymodel) (d : definition),
+      res_rel py_same (gen_PyFunctionModel_define (gen_of_pm p) (map zitem d)) (Ok (pm_define p d))).
+Proof. exact factories_regenerated. Qed.
+
+(* the relation is not vacuous: on a concrete wrapper both sides return, and the regenerated closure computes
+   3 * 5 mod 16 = 15 on the little-endian operands 3 = [1;1;0], 5 = [1;0;1] *)
+Example C12_factories_regenerated_example :
+  match gen_PyFunction_from_int_binary_func (zfun2 Nat.mul) 3%Z 4%Z false with
+  | Ok g => PyFunction_func g [true; true; false; true; false; true] = Ok [true; true; true; true]
+            /\ PyFunction_input_size g = 6%Z /\ PyFunction_output_size g = 4%Z
+  | Err _ => False
+  end.
+Proof. exact factories_regenerated_example. Qed.
